@@ -79,9 +79,16 @@ def main():
                 results[prop] = {'verdict': verdict, 'tier': a.tier, 'wall_s': round(time.time() - t0, 1),
                                  'first': [v[:400] for v in viol[:2]], 'err': (so + se)[-600:] if rc not in (0, 1) else ''}
                 print('%s %s by %s (%s): %s' % (a.name, verdict, prop, a.tier, ' | '.join(v[:200] for v in viol[1:2])))
-        meta['checks'] = results
         out = os.path.join(VERIF, 'seeded', a.name)
         os.makedirs(out, exist_ok=True)
+        old = {}
+        if os.path.exists(os.path.join(out, 'meta.json')):
+            try:
+                old = json.load(open(os.path.join(out, 'meta.json'))).get('checks', {})
+            except Exception:
+                old = {}
+        old.update(results)
+        meta['checks'] = old
         shutil.copy(patch, os.path.join(out, 'patch.diff'))
         shutil.copy(demo, os.path.join(out, 'demo.py'))
         if os.path.exists(os.path.join(a.src, 'notes.md')):
